@@ -3891,6 +3891,14 @@ func CloneExpr(expr Expr) Expr {
 		return &UnsignedLiteral{Val: expr.Val}
 	case *NumberLiteral:
 		return &NumberLiteral{Val: expr.Val}
+	case *NilLiteral:
+		return &NilLiteral{}
+	case *ListLiteral:
+		vals := make([]string, len(expr.Vals))
+		copy(vals, expr.Vals)
+		return &ListLiteral{Vals: vals}
+	case *BoundParameter:
+		return &BoundParameter{Name: expr.Name}
 	case *ParenExpr:
 		return &ParenExpr{Expr: CloneExpr(expr.Expr)}
 	case *RegexLiteral:
